@@ -112,6 +112,73 @@ def oracle_sequence(chk, cfg, files, outs, case):
             return
 
 
+def cli_stream(chk, rng, n, stats):
+    """%Count through the real command line: options that only concern what is printed (-v, -q), a dry run before the real run,
+    recursion and several input directories must not change the numbers.  Expected names from the property itself:
+    per directory (or overall with `common`), in processing order (--sort %Name()), start + k * step, zero-padded."""
+    import os
+    from cli_driver import run_cli
+    from sandbox import Sandbox
+    flagsets = [[], ["-v"], ["-v", "-v"], ["-q"], ["-q", "-q"], ["-v", "-q"]]
+    for i in range(n):
+        start, step, width = rng.randrange(0, 12), rng.randrange(1, 4), rng.choice([0, 0, 2, 3])
+        common_ = rng.random() < 0.3
+        args = ["start=%d" % start, "step=%d" % step] + (["width=%d" % width] if width else []) + (["common"] if common_ else [])
+        rng.shuffle(args)
+        tpl = "%%Count(%s)_%%Name()" % ", ".join(args)
+        roots = ["in", "in2"][: rng.randrange(1, 3)]
+        files = []
+        for r in roots:
+            for d in ["", "sub/", "sub/deep/"][: rng.randrange(1, 4)]:
+                for nm in rng.sample(["a.txt", "b.txt", "c.dat", "d", "e.e", "f.txt"], rng.randrange(1, 5)):
+                    files.append(r + "/" + d + nm)
+        flags = rng.choice(flagsets)
+        dry_first = rng.random() < 0.3
+        with Sandbox() as root:
+            for p in files:
+                os.makedirs(os.path.dirname(os.path.join(root, p)), exist_ok=True)
+                with open(os.path.join(root, p), "w") as fh:
+                    fh.write(p)
+            argv = flags + ["-r", "-s", "%Name()", "--", tpl] + roots
+            if dry_first:
+                run_cli(["-dr"] + argv, root, root=root, snapshots=False, trace=False)
+            res = run_cli(argv, root, root=root, snapshots=False, trace=False)
+            got = {}
+            for dp, _dn, fns in os.walk(root):
+                for fn in fns:
+                    with open(os.path.join(dp, fn)) as fh:
+                        got[fh.read()] = os.path.relpath(os.path.join(dp, fn), root)
+        # processing order: all files sorted by name (stable: gathering order among equal names is unknown, so equal names
+        # in one counting scope are avoided by construction of the expectation below)
+        order = sorted(files, key=lambda p: os.path.basename(p))
+        seen, exp, ambiguous = {}, {}, False
+        names_in_scope = {}
+        for p in order:
+            key = "*" if common_ else os.path.dirname(p)
+            names_in_scope.setdefault(key, []).append(os.path.basename(p))
+        if any(len(v) != len(set(v)) for v in names_in_scope.values()):
+            ambiguous = True          # `common` with equal names in several directories: their relative order is not determined
+        for p in order:
+            key = "*" if common_ else os.path.dirname(p)
+            k = seen.get(key, 0)
+            seen[key] = k + 1
+            v = str(start + k * step)
+            if width:
+                v = v.rjust(width, "0")
+            exp[p] = os.path.join(os.path.dirname(p), v + "_" + os.path.basename(p))
+        stats["cli_runs"] = stats.get("cli_runs", 0) + 1
+        chk.count(("count-cli", tpl, tuple(files), tuple(flags), dry_first))
+        case = {"argv": argv, "files": files, "dry_run_first": dry_first, "status": res.status, "stderr": res.stderr[-300:]}
+        if ambiguous:
+            stats["cli_ambiguous_order"] = stats.get("cli_ambiguous_order", 0) + 1
+            continue
+        if res.status != 0:
+            chk.oracle_fail("%%Count through the command line: exit status %s on a plan whose numbered names are all free" % res.status, case)
+        elif got != exp:
+            bad = sorted(p for p in exp if got.get(p) != exp[p])[:4]
+            chk.oracle_fail("%%Count through the command line: %r" % ([(p, got.get(p), exp[p]) for p in bad],), case)
+
+
 def run(chk):
     rng = chk.rng
     n_single = 3000 if chk.tier == "quick" else 60000
@@ -263,6 +330,7 @@ def run(chk):
     for m in mism:
         chk.corr_fail("Corr.CountCorr.multi_case_ok (several Count tags in one template)", metas2[m])
 
+    cli_stream(chk, rng, 120 if chk.tier == "quick" else 3000, stats)
     chk.coverage["rule"] = (
         "random (start, step, width, common) incl. invalid ones, spelled positionally/named/flag; random interleavings "
         "of files over 1-3 input roots x 1-6 directories; the real CountTag driven through compiled templates "
